@@ -74,4 +74,12 @@ theorem hbStep_refines (pt : Int) (b : String) (s : St D) (hb : Ev D) (m : Meta)
       · rw [hview]; exact Spec.onEvents_self hv
       · intro b' hb'; rw [hview]; exact Spec.frame_replaceId hb'
 
+/-! ## a concrete state: two populated buckets and the empty bucket "c" -/
+
+def exHb : St Nat := createBucket exSt "c" exMeta
+
+theorem exHb_inv : Inv exHb := createBucket_inv exSt_inv "c" exMeta
+
+theorem exHb_view : view exHb "c" = some (exMeta, []) := rfl
+
 end Aw.Store.Memory
